@@ -79,6 +79,9 @@ pub fn run_case(s: &dyn Sampler, case: &StreamCase) -> CaseResult {
         Err(msg) => {
             if msg.starts_with("WORD_BUDGET") {
                 Some(("word_budget".to_string(), format!("{}: more than 1e5 words in one call", case.cell.key())))
+            } else if msg.contains("target_weight < self.get(index)") {
+                // the float-tree descent assertion (known finding C10-tree-float-assert): keyed on the assertion text
+                Some(("panic_assert_target".to_string(), format!("{}: panic: {}", case.cell.key(), msg.lines().next().unwrap_or(""))))
             } else {
                 Some(("panic".to_string(), format!("{}: panic: {}", case.cell.key(), msg.lines().next().unwrap_or(""))))
             }
@@ -258,7 +261,7 @@ pub fn run_c03(ctx: &Ctx) {
             let r = catch(|| s.sample_v(&mut rng));
             evals += 1;
             let viol = match r {
-                Err(msg) => Some((if msg.starts_with("WORD_BUDGET") { "word_budget".to_string() } else { "panic".to_string() }, format!("{}: panic: {}", cell.key(), msg.lines().next().unwrap_or("")))),
+                Err(msg) => Some((if msg.starts_with("WORD_BUDGET") { "word_budget".to_string() } else if msg.contains("target_weight < self.get(index)") { "panic_assert_target".to_string() } else { "panic".to_string() }, format!("{}: panic: {}", cell.key(), msg.lines().next().unwrap_or("")))),
                 Ok(v) => check_val(cell, &v),
             };
             if let Some((sym, msg)) = viol {
@@ -349,7 +352,7 @@ pub fn sweep_f32(ctx: &Ctx) {
                             nt += 1;
                         }
                         let viol = match r {
-                            Err(msg) => Some((if msg.starts_with("WORD_BUDGET") { "word_budget".to_string() } else { "panic".to_string() }, format!("{}: panic: {}", cell.key(), msg.lines().next().unwrap_or("")))),
+                            Err(msg) => Some((if msg.starts_with("WORD_BUDGET") { "word_budget".to_string() } else if msg.contains("target_weight < self.get(index)") { "panic_assert_target".to_string() } else { "panic".to_string() }, format!("{}: panic: {}", cell.key(), msg.lines().next().unwrap_or("")))),
                             Ok(val) => check_val(cell, &val),
                         };
                         if let Some((sym, msg)) = viol {
